@@ -86,6 +86,24 @@ Theorem C18_hub_make : forall eids ports,
 Proof. exact hub_make_spec. Qed.
 Print Assumptions C18_hub_make.
 
+(* dynamic attachment: the send that follows ANY sequence of add_endpoint / element_id reassignments / earlier
+   sends is repeated to exactly the endpoints attached so far other than the sender (nothing is remembered
+   from earlier packets) *)
+Theorem C18_hub_repeats_dynamic : forall (s : hub_state) (pre : list hub_act) (src : Z) (post : list hub_act),
+  let cur := hub_after s pre in
+  nth_error (hub_run s (pre ++ HSend src :: post)) (count_sends pre) = Some (hub_put cur src) /\
+  NoDup (map fst (hub_put cur src)) /\
+  (forall i v, In (i, v) (hub_put cur src) <-> exists e, nth_error cur i = Some e /\ ep_id e <> src /\ v = ep_port e) /\
+  (forall i e, nth_error cur i = Some e -> ep_id e = src -> ~ In i (map fst (hub_put cur src))).
+Proof. exact hub_repeats_dynamic. Qed.
+Print Assumptions C18_hub_repeats_dynamic.
+
+Theorem C18_hub_attached_so_far : forall (s : hub_state) (es : list hub_ep) (src : Z) (i : nat) (v : bool),
+  In (i, v) (hub_put (hub_after s (map HAttach es)) src) <->
+  exists e, nth_error (s ++ es) i = Some e /\ ep_id e <> src /\ v = ep_port e.
+Proof. exact hub_attached_so_far. Qed.
+Print Assumptions C18_hub_attached_so_far.
+
 (* Splitter / NSplitter: see HubProofs.splitter_copies for the reading of the seven clauses *)
 Theorem C18_splitter_copies : forall (att : list bool) (h : heap) (o : nat) (p : pobj),
   hget h o = Some p ->
